@@ -168,7 +168,9 @@ func truncToUint64(v float64) uint64 { return uint64(v) }
 //@   props C05 C19
 //@   requires iterOK(i)
 //@   ensures inv: iterOK(i)
-//@   invariant 0 0 <= i.off && i.off <= 1<<57
+//@   ensures progress: i.off >= old(i.off)+old(i.addNext) && implies(result != TagEnd, i.off > old(i.off)+old(i.addNext) && i.off <= len(i.tape.Tape)) && implies(old(i.off)+old(i.addNext) >= len(i.tape.Tape), result == TagEnd)
+//@   ensures res: result == i.t && i.addNext >= 0
+//@   invariant 0 0 <= i.off && i.off <= 1<<57 && old(i.off)+old(i.addNext) <= i.off
 //@   decreases 0 len(i.tape.Tape) - i.off
 //@   safe
 
@@ -211,6 +213,7 @@ func truncToUint64(v float64) uint64 { return uint64(v) }
 //@   requires iterOK(i)
 //@   ensures inv: implies(result1 == nil, iterOK(i)) && implies(result1 == nil && result0 != TypeNone, iterOK(dst))
 //@   invariant 0 0 <= i.off && i.off <= 1<<57 && old(i.off)+old(i.addNext) <= i.off && len(i.tape.Tape) == len(old(i.tape.Tape))
+//@   invariant 0 direct: implies(i.off != old(i.off)+old(i.addNext), old(i.off)+old(i.addNext) < len(i.tape.Tape) && tagOf(i.tape.Tape[old(i.off)+old(i.addNext)]) == TagNop)
 //@   decreases 0 len(i.tape.Tape) - i.off
 //@   nonnil dst
 //@   safe
@@ -258,6 +261,7 @@ func truncToUint64(v float64) uint64 { return uint64(v) }
 //@   props C05 C19
 //@   requires iterOK(i)
 //@   invariant 0 0 <= off && off <= 1<<57
+//@   invariant 0 direct: implies(off != i.off+i.addNext, i.off+i.addNext < len(i.tape.Tape) && tagOf(i.tape.Tape[i.off+i.addNext]) == TagNop)
 //@   decreases 0 len(i.tape.Tape) - off
 //@   safe
 
@@ -502,6 +506,71 @@ func wfExtents(T []uint64) bool {
 //@   ensures stuck: implies(i.off <= old(i.off)+old(i.addNext), i.t == TagEnd && result == TypeNone)
 //@   ensures inv: iterOK(i)
 //@   invariant 0 0 <= i.off && i.off <= 1<<57 && old(i.off)+old(i.addNext) <= i.off
+//@   decreases 0 len(i.tape.Tape) - i.off
+//@   safe
+
+//@ func (*Iter).AdvanceInto variant step
+//@   props C02 C10 C14 C05
+//@   summary
+//@   requires iterOK(i)
+//@   assigns i.off, i.addNext, i.cur, i.t
+//@   ensures live: implies(result != TagEnd, 1 <= i.off && i.off <= len(i.tape.Tape) && i.t == tagOf(i.tape.Tape[i.off-1]) && i.cur == payOf(i.tape.Tape[i.off-1]) && i.t != TagNop && i.addNext == ite(isNumOrString(i.t), 1, 0))
+//@   ensures res: result == i.t
+//@   ensures progress: implies(result != TagEnd, i.off > old(i.off)+old(i.addNext))
+//@   ensures none: i.addNext >= 0 && i.off >= old(i.off)+old(i.addNext)
+//@   ensures atend: implies(old(i.off)+old(i.addNext) >= len(i.tape.Tape), result == TagEnd)
+//@   ensures endpos: implies(result == TagEnd, i.off >= len(i.tape.Tape) || i.off > old(i.off)+old(i.addNext))
+//@   ensures direct: implies(old(i.off)+old(i.addNext) < len(i.tape.Tape) && tagOf(i.tape.Tape[old(i.off)+old(i.addNext)]) != TagNop, i.off == old(i.off)+old(i.addNext)+1 && i.t == tagOf(i.tape.Tape[i.off-1]))
+//@   ensures inv: iterOK(i)
+//@   invariant 0 0 <= i.off && i.off <= 1<<57 && old(i.off)+old(i.addNext) <= i.off
+//@   invariant 0 direct: implies(i.off != old(i.off)+old(i.addNext), old(i.off)+old(i.addNext) < len(i.tape.Tape) && tagOf(i.tape.Tape[old(i.off)+old(i.addNext)]) == TagNop)
+//@   decreases 0 len(i.tape.Tape) - i.off
+//@   safe
+
+//@ func (*Iter).PeekNextTag variant step
+//@   props C02 C10 C14 C05
+//@   summary
+//@   requires iterOK(i)
+//@   ensures atend: implies(i.off+i.addNext >= len(i.tape.Tape), result == TagEnd)
+//@   ensures direct: implies(i.off+i.addNext < len(i.tape.Tape) && tagOf(i.tape.Tape[i.off+i.addNext]) != TagNop, result == tagOf(i.tape.Tape[i.off+i.addNext]))
+//@   ensures nonop: result != TagNop
+//@   invariant 0 0 <= off && off <= 1<<57
+//@   invariant 0 direct: implies(off != i.off+i.addNext, i.off+i.addNext < len(i.tape.Tape) && tagOf(i.tape.Tape[i.off+i.addNext]) == TagNop)
+//@   decreases 0 len(i.tape.Tape) - off
+//@   safe
+
+//@ func (*Iter).AdvanceIter variant step
+//@   summary
+//@   nonnil dst
+//@   props C02 C10 C14 C05
+//@   requires iterOK(i)
+//@   assigns i.off, i.addNext, i.cur, i.t, *dst
+//@   ensures live: implies(result1 == nil && result0 != TypeNone, 1 <= dst.off && dst.off <= len(old(i.tape.Tape)) && dst.t == tagOf(old(i.tape.Tape)[dst.off-1]) && dst.cur == payOf(old(i.tape.Tape)[dst.off-1]) && dst.t != TagNop && dst.addNext == ite(isNumOrString(dst.t), 1, 0) && result0 == TagToType[dst.t] && iterOK(dst))
+//@   ensures window: implies(result1 == nil && result0 != TypeNone, len(dst.tape.Tape) == dst.off+stepAddNext(dst.t, dst.cur, dst.off) && dst.off <= len(dst.tape.Tape) && len(dst.tape.Tape) <= len(old(i.tape.Tape)) && forall(0, len(dst.tape.Tape), func(j int) bool { return dst.tape.Tape[j] == old(i.tape.Tape)[j] }) && (dst.tape.Strings != nil) == (old(i.tape.Strings) != nil))
+//@   ensures self: implies(i != dst && result1 == nil, iterOK(i) && i.off >= old(i.off)+old(i.addNext))
+//@   ensures selflive: implies(i != dst && result1 == nil && result0 != TypeNone, i.off == dst.off && i.t == dst.t && i.cur == dst.cur && i.addNext == stepAddNext(i.t, i.cur, i.off) && i.off+i.addNext <= len(i.tape.Tape) && i.off > old(i.off)+old(i.addNext))
+//@   ensures direct: implies(i != dst && result1 == nil && old(i.off)+old(i.addNext) < len(old(i.tape.Tape)) && tagOf(old(i.tape.Tape)[old(i.off)+old(i.addNext)]) != TagNop, i.off == old(i.off)+old(i.addNext)+1 && i.t == tagOf(old(i.tape.Tape)[i.off-1]) && i.cur == payOf(old(i.tape.Tape)[i.off-1]) && i.addNext == stepAddNext(i.t, i.cur, i.off) && result0 == TagToType[i.t])
+//@   ensures atend: implies(old(i.off)+old(i.addNext) == len(old(i.tape.Tape)), result0 == TypeNone && result1 == nil)
+//@   ensures aliased: implies(i == dst && result1 == nil && result0 != TypeNone, i.off > old(i.off)+old(i.addNext) && len(i.tape.Tape)-i.off-i.addNext < len(old(i.tape.Tape))-old(i.off)-old(i.addNext))
+//@   invariant 0 0 <= i.off && i.off <= 1<<57 && old(i.off)+old(i.addNext) <= i.off && sameSlice(i.tape.Tape, old(i.tape.Tape))
+//@   invariant 0 direct: implies(i.off != old(i.off)+old(i.addNext), old(i.off)+old(i.addNext) < len(i.tape.Tape) && tagOf(i.tape.Tape[old(i.off)+old(i.addNext)]) == TagNop)
+//@   decreases 0 len(i.tape.Tape) - i.off
+//@   safe
+
+//@ func (*Iter).AdvanceIter variant step-alias
+//@   alias dst i
+//@   props C02 C10 C14 C05
+//@   requires iterOK(i)
+//@   assigns i.off, i.addNext, i.cur, i.t, *dst
+//@   ensures live: implies(result1 == nil && result0 != TypeNone, 1 <= dst.off && dst.off <= len(old(i.tape.Tape)) && dst.t == tagOf(old(i.tape.Tape)[dst.off-1]) && dst.cur == payOf(old(i.tape.Tape)[dst.off-1]) && dst.t != TagNop && dst.addNext == ite(isNumOrString(dst.t), 1, 0) && result0 == TagToType[dst.t] && iterOK(dst))
+//@   ensures window: implies(result1 == nil && result0 != TypeNone, len(dst.tape.Tape) == dst.off+stepAddNext(dst.t, dst.cur, dst.off) && dst.off <= len(dst.tape.Tape) && len(dst.tape.Tape) <= len(old(i.tape.Tape)) && forall(0, len(dst.tape.Tape), func(j int) bool { return dst.tape.Tape[j] == old(i.tape.Tape)[j] }) && (dst.tape.Strings != nil) == (old(i.tape.Strings) != nil))
+//@   ensures self: implies(i != dst && result1 == nil, iterOK(i) && i.off >= old(i.off)+old(i.addNext))
+//@   ensures selflive: implies(i != dst && result1 == nil && result0 != TypeNone, i.off == dst.off && i.t == dst.t && i.cur == dst.cur && i.addNext == stepAddNext(i.t, i.cur, i.off) && i.off+i.addNext <= len(i.tape.Tape) && i.off > old(i.off)+old(i.addNext))
+//@   ensures direct: implies(i != dst && result1 == nil && old(i.off)+old(i.addNext) < len(old(i.tape.Tape)) && tagOf(old(i.tape.Tape)[old(i.off)+old(i.addNext)]) != TagNop, i.off == old(i.off)+old(i.addNext)+1 && i.t == tagOf(old(i.tape.Tape)[i.off-1]) && i.cur == payOf(old(i.tape.Tape)[i.off-1]) && i.addNext == stepAddNext(i.t, i.cur, i.off) && result0 == TagToType[i.t])
+//@   ensures atend: implies(old(i.off)+old(i.addNext) == len(old(i.tape.Tape)), result0 == TypeNone && result1 == nil)
+//@   ensures aliased: implies(i == dst && result1 == nil && result0 != TypeNone, i.off > old(i.off)+old(i.addNext) && len(i.tape.Tape)-i.off-i.addNext < len(old(i.tape.Tape))-old(i.off)-old(i.addNext))
+//@   invariant 0 0 <= i.off && i.off <= 1<<57 && old(i.off)+old(i.addNext) <= i.off && sameSlice(i.tape.Tape, old(i.tape.Tape))
+//@   invariant 0 direct: implies(i.off != old(i.off)+old(i.addNext), old(i.off)+old(i.addNext) < len(i.tape.Tape) && tagOf(i.tape.Tape[old(i.off)+old(i.addNext)]) == TagNop)
 //@   decreases 0 len(i.tape.Tape) - i.off
 //@   safe
 
@@ -1114,6 +1183,7 @@ func jsonUsesE(abs float64) bool { return abs != 0 && (abs < 1e-6 || abs >= 1e21
 
 //@ func appendFloat
 //@   props C18 C10
+//@   summary
 //@   ensures nonfinite: implies(math.IsNaN(f) || math.IsInf(f, 0), result1 != nil && len(result0) == 0 && result0 == nil)
 //@   ensures finite: implies(!math.IsNaN(f) && !math.IsInf(f, 0), result1 == nil)
 //@   assertafter "appendFloatF(dst, f)" fixed: !jsonUsesE(abs) && !math.IsNaN(f) && !math.IsInf(f, 0)
@@ -1156,6 +1226,7 @@ func hexDigitOf(v byte) byte { return ite(v < 10, '0'+v, 'a'+v-10) }
 // and decodes back to the input: S4 of "\b" is 0x08 etc., "\u00XY" is 16*X+Y)
 //@ func escapeBytes
 //@   props C10
+//@   summary
 //@   invariant 0 forall(0, rangeIndex()+1, func(j int) bool { return !shouldEscape[src[j]] })
 //@   assertafter `append(dst, src...)` verbatimall: forall(0, len(src), func(j int) bool { return plainByte(src[j]) })
 //@   assertafter `append(dst, src[:i]...)` verbatimprefix: forall(0, i, func(j int) bool { return plainByte(src[j]) })
@@ -1168,4 +1239,45 @@ func hexDigitOf(v byte) byte { return ite(v < 10, '0'+v, 'a'+v-10) }
 //@   assertafter `append(dst, '\\', 't')` t: s == 9
 //@   assertafter `append(dst, '\\', '\\')` backslash: s == '\\'
 //@   assertafter `append(dst, '\\', 'u', '0', '0', valToHex[s>>4], valToHex[s&0xf])` unicode: s < 0x20 && valToHex[s>>4] == hexDigitOf(s>>4) && valToHex[s&0xf] == hexDigitOf(s&0xf) && s>>4 < 2
+//@   safe [C05]
+
+// marshalling framing (C10): an empty array / element list is the two-byte text "[]" / "{}" appended to dst
+func appended2(res, dst []byte, a, b byte) bool {
+	return len(res) == len(dst)+2 && res[len(dst)] == a && res[len(dst)+1] == b &&
+		forall(0, len(dst), func(j int) bool { return res[j] == dst[j] })
+}
+
+//@ func (*Array).MarshalJSONBuffer
+//@   props C10 C14
+//@   requires 0 <= a.off && a.off < len(a.tape.Tape) && a.off <= 1<<56 && a.tape.Strings != nil
+//@   ensures empty: implies(tagOf(a.tape.Tape[a.off]) == TagArrayEnd, result1 == nil && appended2(result0, old(dst), '[', ']'))
+//@   invariant 0 iterOK(&i) && sameSlice(i.tape.Tape, a.tape.Tape) && i.tape.Strings == a.tape.Strings
+//@   decreases 0 len(i.tape.Tape) - i.off - i.addNext
+//@   safe [C05]
+
+func appended1(res, dst []byte, a byte) bool {
+	return len(res) == len(dst)+1 && res[len(dst)] == a && forall(0, len(dst), func(j int) bool { return res[j] == dst[j] })
+}
+
+//@ func (Elements).MarshalJSONBuffer
+//@   props C10
+//@   requires forall(0, len(e.Elements), func(j int) bool { return iterOK(&e.Elements[j].Iter) && e.Elements[j].Iter.tape.Strings != nil })
+//@   ensures empty: implies(len(e.Elements) == 0, result1 == nil && appended2(result0, old(dst), '{', '}'))
+//@   invariant 0 implies(len(e.Elements) == 0, appended1(dst, old(dst), '{'))
+//@   safe [C05]
+
+// measure of the marshaller's write loop: every round either returns or calls AdvanceInto, which moves forward
+// or reports the end (after which the next round returns)
+func marshalMeasure(i *Iter) int {
+	return 2*maxInt(0, len(i.tape.Tape)-i.off) + ite(i.t != TagEnd, 1, 0)
+}
+
+//@ func (*Iter).MarshalJSONBuffer
+//@   props C10
+//@   summary
+//@   requires iterOK(i) && i.tape.Strings != nil
+//@   assigns i.off, i.addNext, i.cur, i.t
+//@   ensures inv: iterOK(i)
+//@   invariant 0 iterOK(i) && len(stack) >= 1 && stack[0] == 0
+//@   decreases 0 marshalMeasure(i)
 //@   safe [C05]
